@@ -137,21 +137,21 @@ PROPS = {
     "C14": {"kinds": ["STUCK", "FINAL_BUSY", "ID-STARVE"], "stages": thread_stages("C14", [1, 2, 3, 4, 8], 500, [1, 2, 3, 4, 8], 5000), "assumptions": THREAD_ASSUME},
     "C15": {"kinds": ["HB-REUSE", "HB-LIVE", "HB-EXIT"], "stages": thread_stages("C15", [2, 3, 4], 800, [1, 2, 3, 4, 8], 5000), "assumptions": THREAD_ASSUME},
     "C04": {"kinds": ["PIN-LIST", "PIN-MIN", "GUARD-UNPINNED"], "stages": thread_stages("C04", [2, 3, 4], 700, [2, 3, 4, 8], 4000), "assumptions": THREAD_ASSUME},
-    "C16": {"kinds": ["EPOCH-STEP", "CUR-DECREASED", "MIN-GT-CUR", "QUIESCENT-LIST", "QUIESCENT-MIN"],
+    "C16": {"kinds": ["FWD-BLOCKED", "EPOCH-STEP", "CUR-DECREASED", "MIN-GT-CUR", "QUIESCENT-LIST", "QUIESCENT-MIN"],
             "stages": thread_stages("C16", [2, 3, 4], 700, [2, 3, 4, 8], 4000), "assumptions": THREAD_ASSUME},
     "C17": {"kinds": ["LIST-OWNER", "LIST-ORDER", "LIST-PREV", "LIST-STABLE", "GUARD-EPOCH", "GUARD-MOVE", "CRASH-UAF", "CRASH"],
             "stages": thread_stages("C17", [2, 3, 4], 700, [2, 3, 4, 8], 4000), "assumptions": THREAD_ASSUME},
-    "C06": {"kinds": ["ZIPF-RANGE", "ZIPF-INVCDF", "ZIPF-INVCDF-SEAM", "ZIPF-DEFAULT", "CRASH"], "stages": zipf_stages("C06", 100000, 600000),
+    "C06": {"kinds": ["ZIPF-EXCEPTION", "ZIPF-RANGE", "ZIPF-INVCDF", "ZIPF-INVCDF-SEAM", "ZIPF-DEFAULT", "CRASH"], "stages": zipf_stages("C06", 100000, 600000),
             "native_shrink": True, "assumptions": ZIPF_ASSUME},
-    "C18": {"kinds": ["ZIPF-CDF-VALUE", "ZIPF-CDF-MONOTONE", "ZIPF-CDF-LAST", "ZIPF-APPROX-EXACT", "ZIPF-APPROX-CLOSE", "ZIPF-APPROX-CLOSE-TAIL",
+    "C18": {"kinds": ["ZIPF-EXCEPTION", "ZIPF-CDF-VALUE", "ZIPF-CDF-MONOTONE", "ZIPF-CDF-LAST", "ZIPF-APPROX-EXACT", "ZIPF-APPROX-CLOSE", "ZIPF-APPROX-CLOSE-TAIL",
                       "ZIPF-APPROX-CLOSE-NEAR1", "CRASH"], "stages": zipf_stages("C18", 9000, 40000), "native_shrink": True, "assumptions": ZIPF_ASSUME},
-    "C19": {"kinds": ["ZIPF-PURE", "ZIPF-SHARED", "ZIPF-REJECT", "CRASH"], "stages": zipf_stages("C19", 3500, 30000), "native_shrink": True,
+    "C19": {"kinds": ["ZIPF-EXCEPTION", "ZIPF-PURE", "ZIPF-SHARED", "ZIPF-REJECT", "CRASH"], "stages": zipf_stages("C19", 3500, 30000), "native_shrink": True,
             "assumptions": ZIPF_ASSUME},
     "C20": {"kinds": ["EPOCHSEQ", "CRASH", "CRASH-UAF"], "stages": seq_stages(1200, 6000), "native_shrink": True,
             "assumptions": ["histories are sequential: helper threads execute one command at a time, nothing runs concurrently with ForwardGlobalEpoch",
                             "at most one guard per thread; the observing main thread owns one ID, so capacity-1 worker threads",
                             "list nodes are recognised as 64-byte-aligned allocations (global operator new/delete replaced in the harness)"]},
-    "C13": {"kinds": ["PREP-STACK", "PREP-PHANTOM", "PREP-X", "PREP-VER", "PREP-VERIFY", "CVERSION-RESULT", "CVERSION-REFRESH", "CVERSION-X", "CSNAPSHOT"],
+    "C13": {"kinds": ["PREP-STACK", "PREP-PHANTOM", "PREP-LEAK", "PREP-X", "PREP-VER", "PREP-VERIFY", "CVERSION-RESULT", "CVERSION-REFRESH", "CVERSION-X", "CSNAPSHOT"],
             "stages": lock_stages("C13", 8000, 60000), "assumptions": LOCK_ASSUME},
 }
 
